@@ -209,6 +209,10 @@ func lqMixedTrace(r *lqRun, tin *lqTraceIn, rng *rand.Rand, out *vhOut) {
 			a := &lqAct{Name: "Submit", Path: path, Shape: lqShapeName(sh), Mut: lqMutOf(m)}
 			r.step(a, o, false)
 			out.Emit(lqEvent("Submit", o, map[string]interface{}{"path": path, "shape": lqShapeJSON(sh), "mut": m, "reason": o.Reason}))
+		case x < 84 && int(r.ls.GetCurrentHeaderHeight()) == int(r.ls.GetCurrentBlockHeight()):
+			sh := lqRandShape(r, rng, tin.MaxTx)
+			r.step(&lqAct{Name: "SyncHeader", Shape: lqShapeName(sh)}, o, false)
+			out.Emit(lqEvent("SyncHeader", o, map[string]interface{}{"shape": lqShapeJSON(sh)}))
 		case x < 90:
 			k := kinds[rng.Intn(len(kinds))]
 			r.step(&lqAct{Name: "PreExec", Kind: k}, o, false)
